@@ -342,6 +342,28 @@ fn gen_c16(seed: u64, idx: usize, tier: Tier) -> RunScenario {
     let spec = WorldSpec { targets, cmd_files, files, sequences: vec![], max_retained_runs: 2, gitignore: vec![], git: true };
     let opts = RunOpts { commands: cmds.iter().map(|s| s.to_string()).collect(), ..Default::default() };
     let mut script = RunScript::simple(opts);
+    // one scenario in four: a few members of the wide layer exit the moment they have started, while monorail is
+    // still starting the others (starting a member must not wait for any other member to FINISH either);
+    // one in four: every member writes more than a pipe buffer before it is done
+    let early = rng.chance(1, 4);
+    let chatty = rng.chance(1, 4);
+    for cf in &spec.cmd_files {
+        let mut b = crate::rundrv::Behav { command: cf.command.clone(), target: cf.target.clone(), outs: vec![], code: 0, exit_pause_ms: 0, early_exit: false, hold_pipes_ms: 0 };
+        if early && cf.target.starts_with('w') && rng.chance(1, 6) {
+            b.early_exit = true;
+        }
+        if chatty && !b.early_exit {
+            let mut v = Vec::new();
+            let total = 70 * 1024 + rng.below(40 * 1024);
+            let mut n = 0;
+            while v.len() < total {
+                n += 1;
+                v.extend_from_slice(format!("{}@{} line {} {}\n", cf.command, cf.target, n, "x".repeat(80)).as_bytes());
+            }
+            b.outs.push(crate::rundrv::OutStep { fd: if rng.chance(1, 2) { 1 } else { 2 }, hex: crate::proto::hex(&v), pause_ms: 0, close: false });
+        }
+        script.behav.push(b);
+    }
     script.strategy = *rng.pick(&[Strategy::PlanOrder, Strategy::Reverse, Strategy::Uniform, Strategy::Straggler]);
     script.sched_seed = rng.next_u64();
     script.workers = Some(*rng.pick(&[1u32, 1, 2, 4, 16]));
@@ -370,8 +392,10 @@ pub fn check_c16(ctx: &RunCtx, out: &mut Outcome) {
     }
     let mut maxg = 0;
     for (_, hs) in &by_group {
+        // members scripted to exit the moment they start are the exception the scenario asks for
+        let is_early = |h: &&crate::rundrv::HelperRec| ctx.sc.script.behav_for(&h.command, &h.target).map(|b| b.early_exit).unwrap_or(false);
         let last_start = hs.iter().map(|h| h.start_seq).max().unwrap_or(0);
-        let first_exit = hs.iter().filter_map(|h| h.exit_instr_seq).min().unwrap_or(u64::MAX);
+        let first_exit = hs.iter().filter(|h| !is_early(h)).filter_map(|h| h.exit_instr_seq).min().unwrap_or(u64::MAX);
         if first_exit < last_start {
             out.violate("rendezvous", "harness", "harness released a member before all had started".into());
         }
@@ -745,6 +769,13 @@ fn gen_c06(seed: u64, idx: usize, _tier: Tier) -> RunScenario {
             }
             let i = cands[rng.below(cands.len())];
             behav[i].code = *rng.pick(&codes);
+        }
+    }
+    if !behav.is_empty() && rng.chance(1, 12) {
+        // a command leaves a background process behind that keeps its pipes open for a while after it exited 0
+        let i = rng.below(behav.len());
+        if behav[i].code == 0 {
+            behav[i].hold_pipes_ms = *rng.pick(&[300u32, 1800, 2600]);
         }
     }
     let mut script = RunScript::simple(opts);
